@@ -49,7 +49,21 @@ MANIFEST = {
             "listed unmodelled (C15_gen_method_inventory, C15_modelled_iff_tied). Rig: additional surface `net` = a real Computer in a "
             "small network driven only through sim.pre_timestep / apply_request / apply_timestep with shutdown / startup / reset "
             "requests (durations 0..3) and node scans interleaved with file operations and agent actions in the same tick; the "
-            "counters are read from the simulation's describe_state() and through a HostObservation at the start and end of every tick.",
+            "counters are read from the simulation's describe_state() and through a HostObservation at the start and end of every tick. "
+            "Round 4: structural consistency is proved INDEPENDENT OF HEALTH - the item methods of File (restore, delete, scan, repair, "
+            "corrupt, check_hash) and Folder (restore, delete, check_hash, _restoring_timestep) are translated statement by statement "
+            "onto records that carry the structure together with health_status / visible status / num_access and proved equal to the "
+            "structural model for EVERY health value (C15_gen_file_methods, C15_gen_folder_methods, C15_gen_restoring_timestep, "
+            "C15_file_methods_ignore_health, C15_restore_clears_flag_for_every_health); the complete table of health-dependent branches "
+            "of the four classes is regenerated and none controls a return, the deleted flag, a dictionary or a call "
+            "(C15_gen_health_branches); seven more methods (get_file, remove_file, remove_file_by_name, get_folder, delete_file, "
+            "restore_file) are tied by translation instead of text. No item is lost across folders and across both layers, move_file "
+            "included (GKeeps: C15_no_item_lost_any_run, node level too). The initial state: HostNode.__init__'s create loop is modelled "
+            "for every configured folder list (duplicates, files listed twice, names colliding after the extension is appended) - Inv "
+            "and one-folder-per-file hold whether the loader completes or raises, and after setup_for_episode both counters are zero "
+            "(C15_initial_state; the missing reset was defect F-C15e, fixed). Rig: families H / health (corrupt -> delete -> restore at "
+            "file and folder level on every surface, with the number of corrupt-and-deleted items brought back MEASURED on the real "
+            "objects) and cfg (real Computer.from_config with generated folder lists, then setup_for_episode).",
     "note": "C15-specific: health status, red-scan timers, sizes and file types are not modelled (no influence on structure "
             "or response status); six leaf "
             "handlers without a validator still raise IndexError on a truncated path (modelled as `raised`; C05's matter); the power "
@@ -58,8 +72,9 @@ MANIFEST = {
     "technique": "Lean 4 invariant proof over an executable file-system model; model tied by regenerated tables and a differential rig",
     "design_ref": "5/C15",
 }
-MODULES = ["PrimaiteModel.Props.C15", "PrimaiteModel.Props.C15Api", "PrimaiteModel.Props.C15Node", "PrimaiteModel.Props.C15Verbs",
-           "PrimaiteModel.Props.C15Actions", "PrimaiteModel.Props.C15Inventory", "PrimaiteModel.Props.C15Disjoint"]
+MODULES = ["PrimaiteModel.Props.C15Keeps", "PrimaiteModel.Props.C15Loader", "PrimaiteModel.Props.C15", "PrimaiteModel.Props.C15Api", "PrimaiteModel.Props.C15Node", "PrimaiteModel.Props.C15Verbs",
+           "PrimaiteModel.Props.C15Actions", "PrimaiteModel.Props.C15Inventory", "PrimaiteModel.Props.C15Disjoint",
+           "PrimaiteModel.Props.C15Health"]
 EXE = "drv_c15"
 
 
@@ -67,7 +82,7 @@ H = rig.HEAD  # protocol lines before the first operation
 
 
 def _run_case(case: dict):
-    impl, verdicts, flags = rig.run_impl(case)
+    impl, verdicts, flags, _ = rig.run_impl(case)
     return impl, verdicts, rig.model_lines(case, flags)
 
 
@@ -76,10 +91,17 @@ def _impl_only(case: dict):
     return rig.run_impl(case)
 
 
+def _align(ci: List[str], cm: List[str]) -> List[str]:
+    """A configuration that is refused leaves no node: the implementation's trace ends at its `raised`; the model's answers to the
+    operations behind it are not compared (its answer to the `load` itself is)."""
+    return cm[:len(ci)] if (ci and ci[-1] == "raised" and len(cm) > len(ci)) else cm
+
+
 def _diff_case(case: dict):
     impl, verdicts, lines = _run_case(case)
     model = run_driver(EXE, lines)
     ci, cm = rig.canon(impl), rig.canon(model)
+    cm = _align(ci, cm)
     i = next((j for j, (a, b) in enumerate(zip(ci, cm)) if a != b), -1)
     bad_oracle = next((j for j, v in enumerate(verdicts) if v), -1)
     return (i == -1 and bad_oracle == -1), ci, cm, i, lines, verdicts, bad_oracle
@@ -108,6 +130,8 @@ def replay(rec: dict) -> bool:
 def _report(ctx: Ctx, name: str, case: dict):
     """A case on which the implementation disagrees with the proved model or fails C15's own oracle: shrink and report."""
     def fails(ops, case=case):
+        if case["surface"] == "cfg" and (not ops or ops[0][0] != "load" or any(o[0] == "load" for o in ops[1:])):
+            return False  # a configured host starts with its `load`
         ok, *_ = _diff_case(dict(case, ops=ops))
         return not ok
     small = dict(case, ops=shrink_ops(case["ops"], fails, budget=120))
@@ -171,6 +195,19 @@ def run(ctx: Ctx):
         rng3 = ctx.rng.fork("fs-churn")
         for k in range(ctx.scale(1200, 10000)):
             yield f"churn:{k}", rig.gen_churn_case(rng3)
+        # health x deletion: corrupt -> delete -> restore at file and folder level, on every surface
+        depth = ctx.scale(4, 5)
+        ctx.count(f"exhaustive:H:alphabet={len(rig.health_alphabet())}:depth={depth}", len(rig.health_alphabet()) ** depth)
+        for k, ops in enumerate(rig.exhaustive(rig.health_alphabet(), depth)):
+            yield f"exhH{depth}:{k}", {"surface": ("fs", "action", "node")[k % 3], "restore_duration": 1,
+                                      "ops": [["cfile", "fa", "a", False]] + ops}
+        rng5 = ctx.rng.fork("fs-health")
+        for k in range(ctx.scale(600, 10000)):
+            yield f"health:{k}", rig.gen_health_case(rng5, max_ops=ctx.scale(24, 40))
+        # the configured initial state: HostNode.__init__ over generated folder lists, then setup_for_episode
+        rng6 = ctx.rng.fork("fs-cfg")
+        for k in range(ctx.scale(400, 5000)):
+            yield f"cfg:{k}", rig.gen_cfg_case(rng6)
         # node level: a real computer in a small network, power requests interleaved with file operations
         depth = ctx.scale(3, 4)
         for c, cfg in enumerate(rig.node_configs()):
@@ -195,7 +232,9 @@ def run(ctx: Ctx):
         impl_all, verd_all, lines_all, bounds = [], [], [], []
         only = [c for _, c in cases]
         results = pool.map(_impl_only, only, chunksize=max(1, min(250, len(only) // (workers * 4) + 1))) if pool else map(_impl_only, only)
-        for (name, case), (impl, verdicts, flags) in zip(cases, results):
+        for (name, case), (impl, verdicts, flags, stats) in zip(cases, results):
+            for key, n in stats.items():
+                ctx.count(key, n)
             lines = rig.model_lines(case, flags)
             bounds.append((len(lines_all), len(lines)))
             lines_all += lines
@@ -212,6 +251,7 @@ def run(ctx: Ctx):
             ctx.cov["traces_validated_against_impl"] += 1
             state["total"] += 1
             ci, cm = rig.canon(impl), rig.canon(model)
+            cm = _align(ci, cm)
             statuses = [m.split(" | ")[0] for m in cm[H:]]
             has_deleted = any(":1:" in m or ":1)" in m or ":1," in m for m in cm[H:])
             ctx.case(case, has_deleted and any(s in ("failure", "unreachable") for s in statuses))
